@@ -248,7 +248,8 @@ def stepFault (be op n : String) : String :=
   match be.toNat?, op.toNat?, n.toNat? with
   | some be, some op, some n =>
     let (all, pos) := faultScript (be == 0) op n
-    ",".intercalate (all.map toString) ++ s!" fault@{pos} held={if pos < 0 then (-1 : Int) else 0} end=0"
+    ",".intercalate (all.map toString) ++ s!" fault@{pos} held={if pos < 0 then (-1 : Int) else 0} end=0" ++
+      (if be == 4 || be == 7 then " lib=unloaded" else "")
   | _, _, _ => "bad-op"
 
 def stepAll (cx : Bool) (line : String) : String :=
